@@ -223,7 +223,7 @@ pub fn append<T: Q, const N: usize, const M: usize, const SEQ: u32>(pre: Pre, ta
     post(&mut q, &want, g);
     // the other queue is empty and consistent
     let empty = Tab::empty();
-    post(&mut other, &empty, Grp { st: true, ord: false, model: true });
+    post(&mut other, &empty, Grp { st: true, ord: false, model: true, pay: true });
     assert!(other.peek_hi().is_none(), "APPEND: the other queue is left empty");
 }
 
